@@ -147,6 +147,14 @@ func runScript(sc script) (symptom, detail string, inconcl string, joinLeave boo
 		}()
 	}
 
+	// every sender registers BEFORE anything is sent: the context may be
+	// cancelled as soon as the first payload has arrived, and a sender that
+	// registers with a tracer whose context is already done is not covered by
+	// "waits for the registered senders"
+	handles := make([]tracing.ISenderHandle, len(sc.Senders))
+	for s := range sc.Senders {
+		handles[s] = tracer.RegisterSender()
+	}
 	if sc.CancelAt > 0 {
 		at := int64(sc.CancelAt)
 		if at > int64(total) {
@@ -164,7 +172,7 @@ func runScript(sc script) (symptom, detail string, inconcl string, joinLeave boo
 	for s, n := range sc.Senders {
 		s, n := s, n
 		swg.Add(1)
-		h := tracer.RegisterSender()
+		h := handles[s]
 		go func() {
 			defer swg.Done()
 			defer h.Done()
